@@ -133,3 +133,27 @@ func VerifC13_State() {
 	vnd.Assert(uint64(len(got)) == expected, "C13.state.nothing-else")
 	vnd.Assert(vnd.HeldLocks() == 0, "C13.state.locks-released")
 }
+
+// VerifC17_RefreshVsLookup: an accounts refresh overlapping a validating
+// accounts lookup has no unsynchronised conflicting accesses.
+func VerifC17_RefreshVsLookup() {
+	vm := &c13Validators{recs: map[phase0.BLSPubKey]*phase0.Validator{}, idx: map[phase0.BLSPubKey]phase0.ValidatorIndex{}}
+	ct := vstub.NewChainTime(0)
+	s := &Service{accounts: map[phase0.BLSPubKey]e2wtypes.Account{}, validatorsManager: vm, farFutureEpoch: c13FarFuture, currentEpochProvider: ct}
+	key := phase0.BLSPubKey{1}
+	s.accounts[key] = &vstub.Account{Tag: 1, Nm: "acc"}
+	vm.recs[key] = &phase0.Validator{PublicKey: key, ActivationEpoch: 0, ExitEpoch: c13FarFuture, WithdrawableEpoch: c13FarFuture}
+	vm.idx[key] = 100
+	variant := vnd.Choose("lookup", 2)
+	go s.refreshAccounts(context.Background())
+	go func() {
+		if variant == 0 {
+			_, _ = s.ValidatingAccountsForEpoch(context.Background(), 5)
+		} else {
+			_, _ = s.ValidatingAccountsForEpochByIndex(context.Background(), 5, []phase0.ValidatorIndex{100})
+		}
+	}()
+	left := vnd.Quiesce()
+	vnd.Assert(left == 0, "C17.accounts.everything-returns")
+	vnd.Cover("C17.accounts.overlap-explored")
+}
